@@ -72,6 +72,46 @@ MISSED = {
     "C19-6": "every rule was loaded (and Engine.restart reloaded them between rows); added an unloaded rule and stopped restarting",
     "C20-5": "every scenario started with an existing factory manager; added the state of a freshly imported library (None)",
     "C20-6": "Op.is_close was observed on operands of magnitude 1 only; added pairs of magnitude 100, 0.01 and 0",
+    # ---- third round (ids 7..9) ----
+    "C01-7": "every output owned its own defuzzifier / operator objects; added space G (shared instances, outputs of different kinds and ranges)",
+    "C01-9": "the quick tier had no NaN input row under the selecting activation methods; added",
+    "C02-8": "no row with an operand exactly 1 next to a NaN operand; added the row (1.0, NaN)",
+    "C06-8": "rule objects were always fresh; added re-parsing in place of long-lived rule objects that held a weighted rule",
+    "C06-9": "caught by C05 and C07 at once; C06 itself did not re-read the stored degree after triggering hedged conclusions in a batch; added",
+    "C07-8": "the block-level driver used General only; added every activation method with conjunction != implication",
+    "C07-9": "rules were always enabled while they were loaded; added a rule loaded while disabled and enabled afterwards",
+    "C10-7": "every monotonic term had a unit span; Arc / SShape / ZShape now span 2",
+    "C10-8": "the kind was always given as a string; added the enum member and configure()",
+    "C10-9": "activations were always given as a fresh list; added an iterator and a caller-owned list edited afterwards",
+    "C12-7": "restart was only driven on an engine with rule blocks; added restart with the rule blocks removed",
+    "C12-8": "failure classes were RuntimeError / ValueError only; added the arithmetic error classes",
+    "C12-9": "driver B had one rule block; now two, and every engine-level step compares the recorded previous value",
+    "C13-8": "no rule weight with more than 3 decimals; added 0.3456 and the edit 0.34375",
+    "C13-9": "no Last-activated engine; added Last and Highest engines",
+    "C14-7": "names were identifiers only; added an extra variable / term with non-identifier names to the text variants",
+    "C14-9": "numbers were Python floats only; added engines built from numpy.float32 (which exposed the FllExporter.format defect)",
+    "C16-7": "every variable had terms; added the term-less variable family",
+    "C16-8": "the importer was always used with the default separator; added the ';' separator differential",
+    "C03-7": "no single / half precision arrays; added",
+    "C03-9": "no Discrete term with a repeated x-coordinate; added vertical edges",
+    "C04-8": "scalar-with-array and column-with-row operand kinds were missing; added",
+    "C04-9": "scalar-with-array and column-with-row operand kinds were missing; added",
+    "C05-8": "only an absolute tolerance at small degrees; added relative accuracy below 2^-10 and degrees down to 1e-20",
+    "C09-8": "no membership in (0, 1e-3]; added degrees 2^-12 and 2^-11",
+    "C09-9": "the batch size never equalled the resolution; added resolutions 1..4 for the 4-row batches (which exposed the resolution-1 defect)",
+    "C11-7": "no sigmoid far from the origin; added far-from-origin parameter sets",
+    "C11-8": "degree arrays were float64 only; added float32 / float16",
+    "C15-7": "both engines were restarted before comparing outputs and rules were disabled before loading; now disabled after loading, compared without restart, under counting activation methods",
+    "C15-8": "components were exported through to_string / repr only; added the typed PythonExporter methods and empty containers",
+    "C15-9": "no numpy float32 / float16 scalar parameters; added (incl. inf and NaN)",
+    "C17-8": "engines were built through the constructor only; added FLL import / copy / Python export paths with Function terms in input variables",
+    "C18-7": "ranges were ascending only; added descending ranges",
+    "C19-7": "the forward direction ran on skeleton engines only; added chained engines (incl. a term nobody concluded)",
+    "C19-8": "the forward direction ran on skeleton engines only; added weighted outputs x lock-previous / default x input kinds",
+    "C19-9": "the forward direction ran on skeleton engines only; added engines sharing one defuzzifier instance",
+    "C20-7": "helpers were called on fresh objects only; added long-lived exporters built outside / in the previous context",
+    "C20-8": "Op.str was observed on Python floats only; added numpy float32 / float16 scalars and arrays",
+    "C20-9": "Benchmark.run was not among the comparison helpers; added",
 }
 # changes that belong to another property's mechanism: the check that catches them
 EXTRA = {"C05-5": ["C20"]}
